@@ -568,7 +568,7 @@ fn c16(tier: &str, seed: u64, fx: bool) -> GridCheck {
     c.rule = if fx {
         "futures-path stage: random grid programs under the six async macro names with `futures_crate_path(::jvrt::fx)` (a stand-in whose join! / try_join! log their use), compiled in a crate that has NO dependency called `futures`, so any hard-coded `::futures` path fails to compile; oracle: the shim's join!/try_join! is used exactly once per executed step with more than one active branch, and the value is the model's. Non-trivial = a multi-step program with a single-active step, or >= 2 options".to_string()
     } else {
-        "runtime stage: random grid programs (1-6 branches, 1-3 steps, differing depths incl. single-active steps) under the eight macro kinds with an option prefix legal for the kind, options written in rotated / reversed orders: sync - eager logging joiner, lazy joiner (receives closures, calls them in reverse order) with lazy_branches(true), self-transposing joiner with transpose_results(false) (single-step programs), explicit defaults only; thread-spawning - joiner passing the thread handles through, with / without explicit lazy_branches(true); async / task-spawning - joiners wrapping join! / try_join! that tag each output, explicit transpose_results(false) / lazy_branches(false) / futures_crate_path(::futures). Inputs: enumerated / sampled failure plans. Oracle: the joiner is invoked exactly once per executed step with more than one active branch, with that arity, never for a single active branch; argument p evaluates exactly the p-th active branch (sequential macros: every event of that branch lies between the joiner's marks for p; lazy: nothing before the thunk is called); the values that continue carry the joiner's position tags (its output was used); the macro's value is the model's - so explicit defaults behave like omitted options. Non-trivial = >= 2 options, or an option together with a single-active step".to_string()
+        "runtime stage: random grid programs (1-6 branches, 1-3 steps, differing depths incl. single-active steps) under the eight macro kinds with an option prefix legal for the kind, options written in rotated / reversed orders: sync - eager logging joiner, lazy joiner (receives closures, calls them in reverse order) with lazy_branches(true), self-transposing joiner with transpose_results(false) (single-step programs), explicit defaults only; thread-spawning - joiner passing the thread handles through, with / without explicit lazy_branches(true); async / task-spawning - joiners wrapping join! / try_join! that tag each output, explicit transpose_results(false) / lazy_branches(false) / futures_crate_path(::futures). Inputs: enumerated / sampled failure plans. Oracle: the joiner is invoked exactly once per executed step with more than one active branch, with that arity, never for a single active branch; every argument is evaluated once; with lazy_branches(true) everything a branch does happens while the joiner calls that branch's thunk (nothing earlier); the values that continue carry the joiner's position tags, so argument p was the p-th active branch and the joiner's output was used; the macro's value is the model's - so explicit defaults behave like omitted options. Non-trivial = >= 2 options, or an option together with a single-active step".to_string()
     };
     c
 }
